@@ -103,6 +103,39 @@ add("C20", "E1-envx", "exploration",
     E1NOTE, "DESIGN.md 5/C20")
 
 
+E5NOTE = "real functions called directly with harness-built inputs; numpy/scipy trusted; lattice values fixed in the harness"
+add("C04", "E5-lattice", "exploration",
+    "bounded-exhaustive enumeration of the instance lattice of five reference families through the real minimize(), "
+    "exact minimisers by rational active-set enumeration",
+    "Every lattice instance must end with status 0, success, feasibility and a point within 1e-3 relative of the "
+    "exact minimiser. This is exhaustive testing on a lattice, not a convergence proof.",
+    "exact reference mc/refqp.py (fractions.Fraction); default options", "DESIGN.md 5/C04")
+add("C15", "E5-lattice", "exploration",
+    "bounded-exhaustive enumeration of a Cartesian input lattice (bound patterns x gradients x Hessians x scalings "
+    "over twelve decades x constraint rows x improve_tcg) for the five subproblem solvers",
+    "Bounds exactly, radius up to 1e-8 relative, linear (in)equalities up to 1e-8 relative, finiteness and absence of "
+    "exceptions are checked on every lattice point, including every listed degeneracy.",
+    E5NOTE, "DESIGN.md 5/C15")
+add("C16", "E5-lattice", "exploration",
+    "same lattice as C15; the harness re-evaluates each subproblem objective at 0 and at the returned step and "
+    "computes the projected-gradient Cauchy decrease independently",
+    "No-worse-than-zero for all five solvers, Cauchy decrease for the bound-constrained tangential solver, strict "
+    "increase for the Cauchy geometry step, on every lattice point.",
+    E5NOTE + "; one known finding (absolute non-descent threshold)", "DESIGN.md 5/C16")
+add("C17", "E5-lattice", "exploration",
+    "complete enumeration of limit patterns per component (9, +2 wrong-side for linear) for 1..3 components, all value "
+    "vectors over {below, at lb, inside, at ub, above}, and all ordered sequences of up to 2+2 objects through minimize",
+    "Row counts and internal violations are compared with directly computed interval excesses for every pattern and "
+    "value vector; the space of patterns is finite and essentially complete.",
+    E5NOTE, "DESIGN.md 5/C17")
+add("C19", "E5-lattice", "exploration",
+    "complete enumeration of singles and pairs (triples in thorough) of the 33 settings over their boundary lattices "
+    "against a reference table of domains/couplings; invalid values x early exits through minimize",
+    "Reference-invalid configurations must raise ValueError (from the helpers and from minimize whatever early exit "
+    "applies), reference-valid ones must complete to the documented defaults and satisfy every relation.",
+    "reference table in mc/props/c19.py, defaults parsed from the docstring", "DESIGN.md 5/C19")
+
+
 def main():
     man = {
         "version": 1,
